@@ -23,6 +23,7 @@ type Audit struct {
 	r          *Report
 	rule       string
 	exempt     map[string]string // "func | construct" -> reason
+	cmp        bool              // also audit == on lisp values and map keys of interface type (uncomparable dynamic types panic)
 	mayNil     map[ssa.Value]bool
 	nilRet     map[*ssa.Function][]bool
 	barriers   map[*ssa.Function]string
@@ -274,7 +275,54 @@ func (a *Audit) site(fn *ssa.Function, kind, construct string, pos token.Pos, ok
 		a.r.add(a.rule, fn, c, pos, "exempt", reason)
 		return
 	}
+	if key, reason, ex := a.liftedExempt(fn, c); ex {
+		a.usedEx[key] = true
+		a.r.add(a.rule, fn, c, pos, "exempt", reason+" (the construct stands in an unexported function; at each of its call sites the construct, written in the caller's terms, is the exempted one)")
+		return
+	}
 	a.r.bad(a.rule, fn, c, pos, why)
+}
+
+var paramTok = regexp.MustCompile(`\bp(\d+)\b`)
+
+// liftedExempt: a construct of an unexported function that is written in terms of its parameters only is the
+// exempted construct of its callers when, at every call site, substituting the arguments for the parameters gives
+// a construct the table exempts for the calling function (the code was moved into a helper, the reason stands).
+func (a *Audit) liftedExempt(fn *ssa.Function, construct string) (string, string, bool) {
+	if fn.Parent() != nil || fn.Object() == nil || fn.Object().Exported() || !paramTok.MatchString(construct) {
+		return "", "", false
+	}
+	sites := a.e.callSites(fn)
+	if len(sites) == 0 || a.e.escaped[fn] {
+		return "", "", false
+	}
+	var key, reason string
+	for _, site := range sites {
+		caller := site.Parent()
+		if caller == nil || isTestFunc(a.w, caller) {
+			continue
+		}
+		args := site.Common().Args
+		bad := false
+		lifted := paramTok.ReplaceAllStringFunc(construct, func(tok string) string {
+			var n int
+			fmt.Sscanf(tok, "p%d", &n)
+			if n >= len(args) {
+				bad = true
+				return tok
+			}
+			return canonVal(a.e, args[n])
+		})
+		if bad {
+			return "", "", false
+		}
+		k, why, ok := lookupExempt(a.exempt, a.exemptKey(caller, lifted))
+		if !ok {
+			return "", "", false
+		}
+		key, reason = k, why
+	}
+	return key, reason, key != ""
 }
 
 // lookupExempt finds the exemption for a construct.  Whether a variable of the function lives in a cell
@@ -806,7 +854,24 @@ func (a *Audit) auditFuncOnce(fn *ssa.Function) {
 			case *ssa.Panic:
 				a.pendingSrc = a.w.srcExpr(in)
 				a.site(fn, "panic", canonVal(a.e, in.X), instrPos(in), false, "explicit panic reachable outside a recover barrier")
+			case *ssa.Lookup:
+				if mt, ok := in.X.Type().Underlying().(*types.Map); ok && a.cmp && types.IsInterface(mt.Key()) {
+					ok, why := a.comparableValue(in.Index, b)
+					a.site(fn, "hash", a.describe(in.Index), instrPos(in), ok, why)
+				}
 			case *ssa.BinOp:
+				if a.cmp && (in.Op == token.EQL || in.Op == token.NEQ) && types.IsInterface(in.X.Type()) && types.IsInterface(in.Y.Type()) && !isNilConst(in.X) && !isNilConst(in.Y) {
+					okX, whyX := a.comparableValue(in.X, b)
+					okY, whyY := a.comparableValue(in.Y, b)
+					why := whyX
+					if !okX {
+						why = whyY
+					}
+					if !okX && !okY {
+						why = "both operands can hold values of one uncomparable type (" + whyX + "; " + whyY + "): Go panics when it compares them"
+					}
+					a.site(fn, "compare", a.describe(in.X)+" "+in.Op.String()+" "+a.describe(in.Y), instrPos(in), okX || okY, why)
+				}
 				if (in.Op == token.QUO || in.Op == token.REM) && isIntType(in.Type()) {
 					if c, ok := in.Y.(*ssa.Const); ok && c.Value != nil && constant.Sign(c.Value) != 0 {
 						continue
@@ -830,6 +895,10 @@ func (a *Audit) auditFuncOnce(fn *ssa.Function) {
 				}
 				a.derefSite(fn, b, in, in.Addr, "store")
 			case *ssa.MapUpdate:
+				if mt, ok := in.Map.Type().Underlying().(*types.Map); ok && a.cmp && types.IsInterface(mt.Key()) {
+					ok, why := a.comparableValue(in.Key, b)
+					a.site(fn, "hash", a.describe(in.Key), instrPos(in), ok, why)
+				}
 				if a.valueMayBeNil(in.Map, b, map[*ssa.Function]bool{}, 0) || a.mapMayBeNil(in.Map) {
 					a.site(fn, "mapupdate", a.describe(in.Map), instrPos(in), false, "write to a map that may be nil")
 				} else {
@@ -1245,6 +1314,31 @@ func (a *Audit) sliceSite(fn *ssa.Function, b *ssa.BasicBlock, in *ssa.Slice) {
 		}
 	}
 	a.site(fn, "slice", construct, instrPos(in), len(problems) == 0, strings.Join(append(reasons, problems...), "; "))
+}
+
+// comparableValue: every dynamic type the interface value can hold is comparable, so using it as a map key or
+// comparing it with == cannot panic ("hash of unhashable type", "comparing uncomparable type").
+func (a *Audit) comparableValue(v ssa.Value, b *ssa.BasicBlock) (bool, string) {
+	if !types.IsInterface(v.Type()) {
+		return types.Comparable(v.Type()), "static type " + shortType(v.Type())
+	}
+	// only the lisp value interface and the empty interface carry slices, maps and function-holding structs here;
+	// errors, reflect.Type and the like are compared by the identity of the pointers they hold
+	if it, ok := v.Type().Underlying().(*types.Interface); ok && it.NumMethods() > 0 {
+		return true, "an interface with methods (" + shortType(v.Type()) + "): its implementations are pointers or comparable structs"
+	}
+	// errors and other non-lisp interfaces are compared by identity of pointers in practice; the lisp value
+	// interface is the one that carries slices, maps and functions
+	ts := a.e.typeSetOf(v, b, map[ssa.Value]bool{}, 0)
+	if ts.unknown {
+		return false, "the value can hold any dynamic type, slices, maps and function-carrying structs included"
+	}
+	for _, t := range ts.ts {
+		if !types.Comparable(t) {
+			return false, "the value can hold a " + shortType(t) + ", which Go cannot compare or hash"
+		}
+	}
+	return true, "can only hold " + ts.String() + ", all comparable"
 }
 
 // unusedExemptions reports exemptions that matched nothing (stale table entries fail the run).
